@@ -18,6 +18,11 @@ pub enum Site {
     ModuleWrite,
     /// `backends::rust::write_module`: the order of a module's definitions before sorting.
     Definitions,
+    /// `TypeRegistry::resolved()`: only feeds the text of the non-termination error.
+    Resolved,
+    /// `SemanticState::build`: the order in which modules resolve their extern values
+    /// (decides which of several errors is reported).
+    ExternValues,
 }
 
 impl Site {
@@ -26,6 +31,8 @@ impl Site {
             Site::Unresolved => 1,
             Site::ModuleWrite => 2,
             Site::Definitions => 4,
+            Site::Resolved => 8,
+            Site::ExternValues => 16,
         }
     }
 }
